@@ -73,7 +73,7 @@ impl PropImpl for C09 {
          character edits. Non-trivial: >= 3 characters and (the tolerant reader reports an error or a bracket/angle/substvar character occurs); distinct by text hash.".into()
     }
     fn budget(&self, tier: Tier) -> Budget {
-        Budget { cases_per_lane: if tier == Tier::Quick { 4000 } else { 100_000 }, tape_max: 500, cpu_s: 10 }
+        Budget { cases_per_lane: if tier == Tier::Quick { 20000 } else { 100_000 }, tape_max: 500, cpu_s: 10 }
     }
     fn spaces(&self, tier: Tier) -> Vec<Space> {
         let l = enum_len(tier);
